@@ -1,0 +1,63 @@
+//! Verification hooks (cargo feature `verif`, off by default).
+//!
+//! When the feature is enabled the matcher records one event per state change into a
+//! thread-local sink that a conformance harness installs with [`start`] and collects with
+//! [`finish`]. Nothing here changes the computation; with the feature off this module and
+//! every call into it are compiled out.
+
+use chrono::NaiveDate;
+use rust_decimal::Decimal;
+use std::cell::RefCell;
+
+/// One recorded matcher event.
+#[derive(Debug, Clone, PartialEq)]
+pub struct Event {
+    /// Event name (`CostEvent`, `Sell`, `Fail`, `Leg`, `Split`, `DayEnd`).
+    pub kind: &'static str,
+    pub ticker: String,
+    pub date: NaiveDate,
+    /// Named scalar fields.
+    pub nums: Vec<(&'static str, Decimal)>,
+    /// Named text fields (rule names, messages).
+    pub texts: Vec<(&'static str, String)>,
+    /// Per-acquisition-date amounts (e.g. how a cost event was spread over lots).
+    pub lots: Vec<(NaiveDate, Decimal)>,
+    /// Optional related date (acquisition date of a leg).
+    pub other_date: Option<NaiveDate>,
+}
+
+thread_local! {
+    static SINK: RefCell<Option<Vec<Event>>> = const { RefCell::new(None) };
+}
+
+/// Start recording on this thread (discarding anything recorded before).
+pub fn start() {
+    SINK.with(|s| *s.borrow_mut() = Some(Vec::new()));
+}
+
+/// Stop recording and return the events recorded since [`start`].
+pub fn finish() -> Vec<Event> {
+    SINK.with(|s| s.borrow_mut().take().unwrap_or_default())
+}
+
+/// Record an event if a sink is installed.
+pub fn emit(event: Event) {
+    SINK.with(|s| {
+        if let Some(events) = s.borrow_mut().as_mut() {
+            events.push(event);
+        }
+    });
+}
+
+/// Convenience constructor.
+pub fn event(kind: &'static str, ticker: &str, date: NaiveDate) -> Event {
+    Event {
+        kind,
+        ticker: ticker.to_string(),
+        date,
+        nums: Vec::new(),
+        texts: Vec::new(),
+        lots: Vec::new(),
+        other_date: None,
+    }
+}
